@@ -709,6 +709,35 @@ where
         push(out, format!("{name}-generators-{idn}"), "Generators::create", vec![format!("n={n}"), idn.to_string()], outcome, "expect-ok");
         sets.push((idn.to_string(), e));
     }
+    // the blind interface's parameter preparation: for each api id (absent = empty) the generators are
+    // create(L + 1, api_id) ++ create(M + 1, "BLIND_" || api_id), so they share nothing with the sets of the OTHER api ids above
+    {
+        use zkryptium::bbsplus::blind::prepare_parameters;
+        let (l, mm) = (2usize, 3usize);
+        let (ms, cms) = (msgs(l), msgs(mm));
+        for (idn, id) in [("none", None), ("empty", Some(vec![])), ("API_ID_BLIND", Some(CS::API_ID_BLIND.to_vec())), ("custom", Some(b"some-other-api-id_".to_vec()))] {
+            let idb: Vec<u8> = id.clone().unwrap_or_default();
+            let outcome = guard(|| match prepare_parameters::<CS>(Some(&ms), Some(&cms), l + 1, mm + 1, None, id.as_deref()) {
+                Ok((_scalars, g)) => {
+                    let got = enc(&g);
+                    let mut want = enc(&Generators::create::<CS>(l + 1, Some(&idb)));
+                    want.extend(enc(&Generators::create::<CS>(mm + 1, Some(&[b"BLIND_".as_slice(), &idb].concat()))));
+                    if got != want {
+                        return format!("err:prepare_parameters(api_id = {idn}) does not return create(L+1, api_id) ++ create(M+1, BLIND_ || api_id)");
+                    }
+                    for (other, set) in sets.iter() {
+                        let same = (idb.is_empty() && (other == "none" || other == "empty")) || (other == idn) || (*other == format!("BLIND_||{idn}"));
+                        if !same && set.iter().any(|x| got.contains(x)) {
+                            return format!("err:prepare_parameters(api_id = {idn}) shares a generator with api id {other}");
+                        }
+                    }
+                    "ok:accepted".to_string()
+                }
+                Err(e) => format!("err:{e:?}"),
+            });
+            push(out, format!("{name}-prepare_parameters-{idn}"), "blind::prepare_parameters generators", vec![idn.to_string()], outcome, "expect-ok");
+        }
+    }
     // absent == empty; every other pair of api ids gives disjoint sets
     for i in 0..sets.len() {
         for j in (i + 1)..sets.len() {
@@ -782,6 +811,19 @@ where
         });
         push(out, format!("{name}-keygen-{id}"), "KeyPair::generate", vec![id.to_string()], outcome, expect);
     }
+    // an absent key_dst is the draft's default api_id || "KEYGEN_DST_"; an absent key_info is the empty string
+    let o = guard(|| {
+        let dflt = [CS::API_ID, CS::KEYGEN_DST].concat();
+        let a = KP::<CS>::generate(IKM, Some(b"info"), None).map(|k| k.private_key().to_bytes());
+        let b = KP::<CS>::generate(IKM, Some(b"info"), Some(&dflt)).map(|k| k.private_key().to_bytes());
+        let c = KP::<CS>::generate(IKM, None, None).map(|k| k.private_key().to_bytes());
+        let d = KP::<CS>::generate(IKM, Some(b""), Some(&dflt)).map(|k| k.private_key().to_bytes());
+        match (a, b, c, d) {
+            (Ok(a), Ok(b), Ok(c), Ok(d)) => if a != b { "err:generate(.., key_dst = None) differs from the explicit default api_id || KEYGEN_DST_".into() } else if c != d { "err:generate(ikm, None, None) differs from generate(ikm, Some(\"\"), default)".into() } else { "ok:accepted".into() },
+            _ => "err:key generation failed".into(),
+        }
+    });
+    push(out, format!("{name}-keygen-default-key_dst"), "KeyPair::generate(key_dst = None) vs explicit default", vec![], o, "expect-ok");
     for (id, n, expect) in [("dst-255", 255usize, "expect-ok"), ("dst-256", 256, "expect-err"), ("dst-300", 300, "expect-err"), ("dst-0", 0, "expect-ok")] {
         let outcome = guard(move || match hash_to_scalar::<CS>(b"msg", &vec![b'x'; n]) {
             Ok(_) => "ok:accepted".to_string(),
